@@ -115,7 +115,8 @@ pub fn oracle_snapshot(out: &mut Out, res: &SnapResult, ign: &Ignores) {
     let (t2, _s2) = match &res.result {
         Ok(x) => x,
         Err(e) => {
-            let sig = if res.known_enotdir { "snapshot:error:tracked-path-below-ignored-dir-parent-not-a-directory".to_string() } else { format!("snapshot:{e}") };
+            let sig = if res.known_enotdir { "snapshot:error:tracked-path-below-ignored-dir-parent-not-a-directory".to_string() }
+                else if res.known_conflict_dir { "snapshot:panic:file-replacing-directory-with-conflict-not-recorded".to_string() } else { format!("snapshot:{e}") };
             out.oracle_fail(&sig, format!("snapshot failed ({e}) on disk={} tree={} states={} sparse={}",
                 show_disk(&pre.disk), show_tree(&pre.tree), show_set(&pre.states), show_seq(&pre.sparse)));
             return;
@@ -177,7 +178,8 @@ pub fn run(cfg: &Cfg, out: &mut Out) {
         let mut env = Env::new();
         // start from a checked-out tree in two thirds of the workspaces, sparse in a third
         if r.chance(2, 3) {
-            let t = env.build_tree(&gen_tree(&mut r, false));
+            let cf = r.chance(1, 3);
+            let t = env.build_tree(&gen_tree(&mut r, cf));
             // (setup operations are correspondence cases too)
             env.check_out(out, &t);
             if r.chance(1, 3) { env.set_sparse(out, &gen_sparse(&mut r)); }
